@@ -27,6 +27,8 @@ Definition POKE_NS : Z := 50000000.
 Definition dur_ltb (a b : dur) : bool := negb (dur_leb b a).
 (* Ord::min(self, other): other if other < self, else self *)
 Definition dur_min (a b : dur) : dur := if dur_ltb b a then b else a.
+(* Ord::max(self, other): self if other < self, else other *)
+Definition dur_max (a b : dur) : dur := if dur_ltb b a then a else b.
 (* Iterator::min *)
 Definition min_list (l : list dur) : option dur :=
   match l with
@@ -42,7 +44,7 @@ Definition time_of_transport (t : dur) : dur := dur_new (sec t) (nanosec t).
 (* ------------------------------------------------------------------ snapshot *)
 Record reader_s : Type := mkR {
   r_deadline : option dur;              (* qos.deadline.period, None = Infinite *)
-  r_owned : list dur                    (* instance_ownership[..].last_received_time *)
+  r_last : list dur                     (* instances[..].last_received_time_stamp *)
 }.
 Record writer_s : Type := mkW {
   w_deadline : option dur;
@@ -67,7 +69,7 @@ Definition tu_stale_participant (now : dur) (p : part_s) : option dur :=
 (* participant_entity.rs:126 *)
 Definition tu_reader (now : dur) (r : reader_s) : option dur :=
   match r_deadline r with
-  | Some dl => min_list (map (fun last => dur_sub dl (time_sub now last)) (r_owned r))
+  | Some dl => min_list (map (fun last => dur_sub dl (time_sub now last)) (r_last r))
   | None => None
   end.
 Definition tu_missed_reader_deadline (now : dur) (p : part_s) : option dur :=
@@ -123,7 +125,7 @@ Definition same_now (t : dur) : nows := mkNows t t t t t t.
 
 Definition unwrap_or (o : option dur) (d : dur) : dur := match o with Some x => x | None => d end.
 
-(* domain_participant_factory.rs:287-306 *)
+(* domain_participant_factory.rs:287-309: the minimum, clamped at zero (`.max(Duration::new(0, 0))`) *)
 Definition next_task_time (ps : list part_s) (n : nows) : dur :=
   let t1 := factory_min tu_missed_reader_deadline (n_rd n) ps in
   let t2 := factory_min tu_missed_writer_deadline (n_wd n) ps in
@@ -131,9 +133,9 @@ Definition next_task_time (ps : list part_s) (n : nows) : dur :=
   let t4 := factory_min tu_stale_writer_sample (n_ws n) ps in
   let t5 := factory_min tu_pending_writer_sample_timeout (n_pw n) ps in
   let t6 := factory_min tu_participant_announcement (n_pa n) ps in
-  dur_min (dur_min (dur_min (dur_min (dur_min (dur_min poke_time
+  dur_max (dur_min (dur_min (dur_min (dur_min (dur_min (dur_min poke_time
     (unwrap_or t1 poke_time)) (unwrap_or t2 poke_time)) (unwrap_or t3 poke_time))
-    (unwrap_or t4 poke_time)) (unwrap_or t5 poke_time)) (unwrap_or t6 poke_time).
+    (unwrap_or t4 poke_time)) (unwrap_or t5 poke_time)) (unwrap_or t6 poke_time)) dzero.
 
 (* time.rs:160  core::time::Duration::new(x.sec as u64, x.nanosec); the result as total
    nanoseconds (u128).  Duration::new carries nanosec / 1e9 into the seconds with a checked
@@ -145,27 +147,6 @@ Definition to_core_ns (d : dur) : res Z :=
 
 Definition requested_delay (ps : list part_s) (n : nows) : res Z :=
   to_core_ns (next_task_time ps n).
-
-(* the class of the recorded finding C31-negative-sleep: the minimum is negative *)
-Definition negative_sleep (ps : list part_s) (n : nows) : bool := sec (next_task_time ps n) <? 0.
-
-(* "nothing is overdue when the sleep is computed": every item that contributes a
-   time_until_* value is still in the future (or exactly due) at its clock reading *)
-Definition nonneg (d : dur) : bool := 0 <=? sec d.
-Definition all_nonneg (ps : list part_s) (n : nows) : bool :=
-  forallb (fun p =>
-    forallb (fun r => match r_deadline r with
-                      | Some dl => forallb (fun last => nonneg (dur_sub dl (time_sub (n_rd n) last))) (r_owned r)
-                      | None => true end) (p_readers p) &&
-    forallb (fun w => match w_deadline w with
-                      | Some dl => forallb (fun last => nonneg (dur_sub dl (time_sub (n_wd n) last))) (somes (w_last w))
-                      | None => true end) (p_writers p) &&
-    forallb (fun d => nonneg (dur_sub (fst d) (time_sub (n_sp n) (snd d)))) (p_disc p) &&
-    forallb (fun w => match w_lifespan w with
-                      | Some ls => forallb (fun ts => nonneg (time_sub (dur_add (time_of_transport ts) ls) (n_ws n)))
-                                           (somes (w_changes w))
-                      | None => true end) (p_writers p) &&
-    nonneg (p_interval p)) ps.
 
 (* ------------------------------------------------------------------ worker level *)
 (* SimClock::now: Time::new((n / 1e9) as i32, (n % 1e9) as u32) *)
@@ -179,13 +160,11 @@ Record swriter : Type := mkSW {
   sw_changes : list dur;                (* source timestamps of the history, storage order *)
   sw_odm : Z                            (* offered_deadline_missed_status.total_count *)
 }.
-(* a reader: `instances` (InstanceState: handle, last_received_time_stamp — never removed)
-   and `instance_ownership` (handle, last_received_time — removed when the deadline is missed
-   or the instance is disposed; this is the list time_until_missed_reader_deadline looks at) *)
+(* a reader: `instances` (InstanceState: handle, last_received_time_stamp — never removed);
+   both check_missed_reader_deadline and time_until_missed_reader_deadline look at it *)
 Record sreader : Type := mkSR {
   sr_deadline : option dur;
   sr_insts : list (Z * dur);
-  sr_owned : list (Z * dur);
   sr_rdm : Z                            (* requested_deadline_missed_status.total_count *)
 }.
 Record sstate : Type := mkSS {
@@ -199,7 +178,7 @@ Record sstate : Type := mkSS {
 
 Definition snap_writer (w : swriter) : writer_s :=
   mkW (sw_deadline w) (map si_last (sw_insts w)) (sw_lifespan w) (map Some (sw_changes w)) None.
-Definition snap_reader (r : sreader) : reader_s := mkR (sr_deadline r) (map snd (sr_owned r)).
+Definition snap_reader (r : sreader) : reader_s := mkR (sr_deadline r) (map snd (sr_insts r)).
 Definition snap (s : sstate) : part_s :=
   mkP true (ss_last_ann s) (ss_interval s) [] (map snap_reader (ss_readers s)) (map snap_writer (ss_writers s)).
 
@@ -230,16 +209,21 @@ Definition remove_stale (now : dur) (w : swriter) : swriter :=
   | None => w
   end.
 
-(* discovery_methods.rs:245 check_missed_reader_deadline, one reader: every instance with
-   `now - last_received_time_stamp > deadline` is counted at EVERY call (nothing re-arms);
-   its instance_ownership entry is dropped *)
+(* discovery_methods.rs:315 check_missed_reader_deadline, one reader: an instance with
+   `now - last_received_time_stamp > deadline` is reported once and re-armed by ONE period
+   (InstanceState::rearm_deadline), as on the writer side *)
+Definition check_rinst (now dl : dur) (i : Z * dur) : (Z * dur) * Z :=
+  if dur_ltb dl (time_sub now (snd i)) then ((fst i, dur_add (snd i) dl), 1) else (i, 0).
+Fixpoint check_rinsts (now dl : dur) (l : list (Z * dur)) : list (Z * dur) * Z :=
+  match l with
+  | [] => ([], 0)
+  | i :: r => let '(i', a) := check_rinst now dl i in
+              let '(r', b) := check_rinsts now dl r in (i' :: r', a + b)
+  end.
 Definition check_reader_deadline (now : dur) (r : sreader) : sreader :=
   match sr_deadline r with
-  | Some dl =>
-      let missed := filter (fun i => dur_ltb dl (time_sub now (snd i))) (sr_insts r) in
-      mkSR (sr_deadline r) (sr_insts r)
-           (filter (fun o => negb (existsb (fun i => fst i =? fst o) missed)) (sr_owned r))
-           (sr_rdm r + Z.of_nat (length missed))
+  | Some dl => let '(l, n) := check_rinsts now dl (sr_insts r) in
+               mkSR (sr_deadline r) l (sr_rdm r + n)
   | None => r
   end.
 
@@ -301,21 +285,14 @@ Inductive sop : Type :=
 Definition dur_of_ns (n : Z) : dur := dur_new (wrap_i32 (n / NS)) (wrap_u32 (n mod NS)).
 
 (* data_reader_entity.rs add_change (Alive sample, reception_timestamp = now):
-   InstanceState.update_state sets last_received_time_stamp; instance_ownership entry is
-   updated (`if last < now`) or pushed *)
+   InstanceState.update_state sets last_received_time_stamp *)
 Fixpoint set_key (key : Z) (t : dur) (l : list (Z * dur)) : list (Z * dur) :=
   match l with
   | [] => [(key, t)]
   | i :: r => if fst i =? key then (key, t) :: r else i :: set_key key t r
   end.
-Fixpoint max_key (key : Z) (t : dur) (l : list (Z * dur)) : list (Z * dur) :=
-  match l with
-  | [] => [(key, t)]
-  | i :: r => if fst i =? key then (key, if dur_ltb (snd i) t then t else snd i) :: r else i :: max_key key t r
-  end.
 Definition recv_reader (now : dur) (keys : list Z) (r : sreader) : sreader :=
-  fold_left (fun r key => mkSR (sr_deadline r) (set_key key now (sr_insts r))
-                               (max_key key now (sr_owned r)) (sr_rdm r)) keys r.
+  fold_left (fun r key => mkSR (sr_deadline r) (set_key key now (sr_insts r)) (sr_rdm r)) keys r.
 
 Definition apply_mail (o : sop) (s : sstate) : sstate :=
   match o with
@@ -324,7 +301,7 @@ Definition apply_mail (o : sop) (s : sstate) : sstate :=
            (ss_writers s ++ [mkSW (option_map dur_of_ns dl) (option_map dur_of_ns ls) [] [] 0]) (ss_readers s)
   | SCreateR dl =>
       mkSS (ss_now s) (ss_wake s) (ss_last_ann s) (ss_interval s) (ss_writers s)
-           (ss_readers s ++ [mkSR (option_map dur_of_ns dl) [] [] 0])
+           (ss_readers s ++ [mkSR (option_map dur_of_ns dl) [] 0])
   | SWrite w key ts =>
       let now := time_of_ns (ss_now s) in
       let t := match ts with Some x => time_of_ns x | None => now end in
@@ -357,7 +334,7 @@ Definition ADV_FUEL : nat := 4000.
 Definition reply_of (o : sop) (s : sstate) : Z :=
   match o with
   | SOdm w => sw_odm (nth w (ss_writers s) (mkSW None None [] [] 0))
-  | SScr r => if 0 <? sr_rdm (nth r (ss_readers s) (mkSR None [] [] 0)) then 1 else 0
+  | SScr r => if 0 <? sr_rdm (nth r (ss_readers s) (mkSR None [] 0)) then 1 else 0
   | _ => 0
   end.
 Definition step (s : sstate) (o : sop) (k : nat) : sstate * list (Z * res Z) * Z :=
